@@ -17,7 +17,8 @@ import (
 type fsCall struct {
 	Kind string `json:"kind"` // call | retry | notify | sub | noctx
 	Plan Plan   `json:"plan"`
-	When string `json:"when"` // pre | noticed | window | healed
+	When string `json:"when"`                    // pre | noticed | window | healed
+	Pre  bool   `json:"pre_cancelled,omitempty"` // issued with an already cancelled context
 }
 
 type fsCase struct {
@@ -128,7 +129,12 @@ func runFaultSim(c fsCase) *fsOutcome {
 				continue
 			}
 			tok := rig.Tok(fc.Kind)
-			p := rig.Go(cl, fc.Kind, tok, fc.Plan)
+			var p *Pending
+			if fc.Pre {
+				p = rig.GoPre(cl, fc.Kind, tok, fc.Plan)
+			} else {
+				p = rig.Go(cl, fc.Kind, tok, fc.Plan)
+			}
 			out.Calls = append(out.Calls, fsCallOut{fc, p})
 			// keep the order of requests on the wire equal to the order in the case where the link allows it
 			deadline := time.Now().Add(60 * time.Millisecond)
